@@ -250,6 +250,11 @@ func vCheckPortalFormats(w *vWorld, portal []byte, nc int, formats []FormatCode,
 		vAssert(tag+"announced-format", vBE16(b, j+16) == int(vFormatFor(formats, c)))
 		i = j + 18
 	}
+	vCheckPortalExec(w, portal, nc, formats, tag)
+}
+
+// vCheckPortalExec: Execute of the portal writes its row in the given formats.
+func vCheckPortalExec(w *vWorld, portal []byte, nc int, formats []FormatCode, tag string) {
 	w.conn.out = nil
 	exec := vCat(vCStr(portal), vU32(0))
 	vAssert(tag+"execute-ok", w.ses.handleExecute(w.ctx, &buffer.Reader{Msg: exec, MaxMessageSize: 64}, w.wr) == nil)
@@ -451,6 +456,13 @@ func VerifH07d() {
 	w := vNewWorld(nil, 64)
 	vAssert("set-ok", w.ses.Statements.Set(w.ctx, "", vInt4Statement(nc)) == nil)
 	vAssert("bind-1", w.ses.handleBind(w.ctx, &buffer.Reader{Msg: vBindBody(p1, nil, f1), MaxMessageSize: 64}, w.wr) == nil)
+	// the first portal may be described before the second Bind (which may
+	// replace it): a lookup leaves nothing behind that a later Bind must undo
+	describedBetween := nondetBool()
+	if describedBetween {
+		desc := vCat([]byte{'P'}, vCStr(p1))
+		vAssert("describe-between-ok", w.ses.handleDescribe(w.ctx, &buffer.Reader{Msg: desc, MaxMessageSize: 64}, w.wr) == nil)
+	}
 	vAssert("bind-2", w.ses.handleBind(w.ctx, &buffer.Reader{Msg: vBindBody(p2, nil, f2), MaxMessageSize: 64}, w.wr) == nil)
 	var want []FormatCode
 	known := false
@@ -463,6 +475,14 @@ func VerifH07d() {
 		want, known = f1, true
 	}
 	if !known {
+		return
+	}
+	if nondetBool() {
+		// executed at once, without a Describe after the latest Bind
+		vCheckPortalExec(w, p3, nc, want, "latest-bind-")
+		if describedBetween && vEqBytes(p1, p2) && vEqBytes(p3, p2) {
+			vReach("described-rebound-then-executed-without-another-describe")
+		}
 		return
 	}
 	vCheckPortalFormats(w, p3, nc, want, "latest-bind-")
@@ -834,4 +854,65 @@ func VerifH08t() {
 	sv, isStr := got.(string)
 	vAssert("parameter-decodes-through-the-connection's-own-type", scanErr == nil && isStr && vEqStr(sv, string(val)))
 	vReach("parameter-of-a-type-registered-on-the-connection")
+}
+
+// ---------------------------------------------------------------------------
+// H08e — result-format codes apply to columns the statement function defines
+// while it runs (C08): the statement is stored without declared columns; its
+// function defines two int4 columns through the result writer's Define method
+// (exported on the writer, reached by an interface assertion), writes one row and
+// completes. The Bind carried no result-format code, or one (text or binary):
+// the RowDescription the Define emits announces that format for every column
+// and the DataRow is encoded in it.
+// ---------------------------------------------------------------------------
+func VerifH08e() {
+	nc := 2
+	var formats []FormatCode
+	if nondetBool() {
+		formats = []FormatCode{FormatCode(vChoose(2))}
+	}
+	cols := Columns{{Name: "a", Oid: oid.T_int4}, {Name: "b", Oid: oid.T_int4}}
+	var defineErr error
+	fn := func(ctx context.Context, dw DataWriter, params []Parameter) error {
+		definer, ok := dw.(interface{ Define(Columns) error })
+		vAssert("the-writer-has-a-define-method", ok)
+		if defineErr = definer.Define(cols); defineErr != nil {
+			return defineErr
+		}
+		if err := dw.Row([]any{int32(7), int32(7)}); err != nil {
+			return err
+		}
+		return dw.Complete("SELECT 1")
+	}
+	w := vNewWorld(nil, 64)
+	vAssert("set-ok", w.ses.Statements.Set(w.ctx, "", NewStatement(fn)) == nil)
+	vAssert("bind-ok", w.ses.handleBind(w.ctx, &buffer.Reader{Msg: vBindBody(nil, nil, formats), MaxMessageSize: 64}, w.wr) == nil)
+	w.conn.out = nil
+	exec := vCat(vCStr(nil), vU32(0))
+	vAssert("execute-ok", w.ses.handleExecute(w.ctx, &buffer.Reader{Msg: exec, MaxMessageSize: 64}, w.wr) == nil)
+	vAssert("define-ok", defineErr == nil)
+	msgs, ok := vFrames(w.conn.out)
+	vAssert("execute-writes-description-row-completion", ok && len(msgs) == 3 && msgs[0].typ == 'T' && msgs[1].typ == 'D' && msgs[2].typ == 'C' && vBodyOK(msgs[0]))
+	b := msgs[0].body
+	vAssert("rowdescription-count", vBE16(b, 0) == nc)
+	i := 2
+	for c := 0; c < nc; c++ {
+		j := vCString(b, i)
+		vAssert("announced-format-is-the-bound-one", vBE16(b, j+16) == int(vFormatFor(formats, c)))
+		i = j + 18
+	}
+	d := msgs[1].body
+	vAssert("datarow-count", vBE16(d, 0) == nc)
+	k := 2
+	for c := 0; c < nc; c++ {
+		l := int(vBE32(d, k))
+		k += 4
+		if vFormatFor(formats, c) == BinaryFormat {
+			vAssert("binary-encoding-used", l == 4 && d[k+3] == 7 && d[k] == 0)
+			vReach("columns-defined-while-running-bound-binary")
+		} else {
+			vAssert("text-encoding-used", l == 1 && d[k] == '7')
+		}
+		k += l
+	}
 }
